@@ -1,4 +1,8 @@
-"""Registry of the properties: which pipeline decides each and with what sizes."""
+"""Registry of the properties: which pipeline decides each and with what sizes.
+Each property has a file lib/specs/cXX.py defining SPEC = dict(...)."""
+import glob
+import importlib
+import os
 
 PROPS = {}
 
@@ -7,13 +11,6 @@ def reg(**kw):
     PROPS[kw["id"]] = kw
 
 
-reg(id="C11", kind="pure", gen="c11", corr="C11", n_quick=800, n_thorough=16000,
-    level_text="getMetrics is modelled line by line; min/max/latest/one-per-strategy/interleaving/bad-timestamp are Coq theorems for logs of any length; "
-               "the model is compared with the real UpdateTrialStatusObservation on generated logs each run and the boolean form of the theorems is evaluated on the implementation's output",
-    coq_targets=["theories/Props/C11.vo", "theories/Corr/C11.vo", "theories/Proofs/C11Monitor.vo"],
-    assumptions=[
-        "strconv.ParseFloat and time.Parse(RFC3339Nano) are evaluated by the harness: the model receives the exact number (units of 1/1024) and the instant (ns) they return",
-        "values are finite (NaN/Inf excluded by the property); generated numbers are k/1024 with |k| < 2^30, exactly representable in binary64",
-        "equal texts denote equal numbers and the text 'unavailable' does not parse (texts_wf; holds by construction of the interning)",
-    ],
-    trusted_base=["getMetrics is reached through ReconcileTrial.UpdateTrialStatusObservation (verif constructor) with an in-process fake DB manager"])
+for _f in sorted(glob.glob(os.path.join(os.path.dirname(os.path.abspath(__file__)), "specs", "c*.py"))):
+    _m = importlib.import_module("lib.specs." + os.path.basename(_f)[:-3])
+    reg(**_m.SPEC)
